@@ -382,6 +382,9 @@ func (w *World) synthesise(fs *FuncSpec) error {
 		}{doc.withObserved(), "~observed", "C01,C02,C11"})
 	}
 	gen := func(lt *LayoutType, suffix, props string, last bool) error {
+		if lt.Header == "none" {
+			props += ",C18" // the CMPP status-report body is part of the delivery-receipt property
+		}
 		lenMember, _ := lt.headerMembers(r)
 		_ = lenMember
 		switch dir[0] {
